@@ -65,7 +65,8 @@ PROPS = {
     "C12": dict(comps=["stream."], project=proj(mon="*")),
     "C13": dict(comps=["stream.twolevel", "hist.twolevel", "fn.n_advance"], project=proj(mon="*")),
     "C14": dict(comps=["stream.multistage", "fn.allocate_snapshots"], project=proj(mon="*")),
-    "C15": dict(comps=["hist.", "inter.", "fresh.", "stream.multistage", "stream.mixed", "fn.allocate_snapshots"], project=FULL),
+    "C15": dict(comps=["hist.", "inter.", "fresh.", "stream.multistage", "stream.mixed", "fn.allocate_snapshots"],
+                project=proj(fields=("n", "r", "m", "x", "run"), mon="*", fin=True, obs0=True)),   # everything but uses_storage_type
     "C16": dict(comps=["stream.mixed", "ctor.mixed", "hist.mixed", "fn.mixed_steps_tabulation", "fn.mixed_step_memoization"], project=proj()),
     "C17": dict(comps=["ctor.", "stream."], project=proj()),
     "C18": dict(comps=["stream.", "val.", "inter."], project=lambda ls: [l for l in proj()(ls)]),
